@@ -344,6 +344,60 @@ def _c14_o4(W, ob):
     c14.o4(W, ob)
 
 
+BINCODE_TOP = {'serialize', 'serialize_into', 'serialized_size', 'deserialize', 'deserialize_from'}
+BINCODE_MOD = {'with_fixint_encoding': ('int', 'fixint'), 'with_varint_encoding': ('int', 'varint'), 'with_big_endian': ('endian', 'big'),
+               'with_little_endian': ('endian', 'little'), 'with_native_endian': ('endian', 'native')}
+
+
+def o15(W, ob):
+    """writer and reader of each wire use the same serialisation configuration"""
+    groups = {'player inputs (InputBytes)': [], 'messages (UdpNonBlockingSocket)': []}
+    n = 0
+    for f in W.fns():
+        if f.derived:
+            continue
+        cfgmods = {}
+        uses = []
+        for t in f.calls():
+            p = t.callee.path or t.callee.best or ''
+            if not p.startswith('bincode::'):
+                continue
+            seg = last_seg(p)
+            if p.startswith('bincode::Options::') or p.startswith('bincode::config::'):
+                if seg in BINCODE_MOD:
+                    k, v = BINCODE_MOD[seg]
+                    cfgmods[k] = v
+                elif seg in BINCODE_TOP:
+                    uses.append((t, 'options', seg))
+            elif seg in BINCODE_TOP:
+                uses.append((t, 'top', seg))
+        for t, how, seg in uses:
+            n += 1
+            if how == 'top':
+                cls = ('fixint', 'little')
+            else:
+                cls = (cfgmods.get('int', 'varint'), cfgmods.get('endian', 'little'))
+            direction = 'read' if seg.startswith('deserialize') else 'write'
+            host = f.parent if f.kind == 'closure' and f.parent else f.path
+            if 'InputBytes' in host:
+                groups['player inputs (InputBytes)'].append((f, t, cls, direction, seg))
+            elif 'udp_socket' in host:
+                groups['messages (UdpNonBlockingSocket)'].append((f, t, cls, direction, seg))
+            else:
+                ob.fail('bincode|unreviewed-site|%s' % short(host), '%s calls bincode::%s: a serialisation site outside the two reviewed wires (player inputs, messages); '
+                        'its counterpart must be checked to use the same configuration' % (short(host), seg), where(f, t.line))
+    for g, sites_ in groups.items():
+        w = {c for _, _, c, d, _ in sites_ if d == 'write'}
+        r = {c for _, _, c, d, _ in sites_ if d == 'read'}
+        ok = len(w) == 1 and len(r) == 1 and w == r
+        f0, t0 = (sites_[0][0], sites_[0][1]) if sites_ else (None, None)
+        bad = next(((f, t) for f, t, c, d, _ in sites_ if d == 'read' and c not in w), (f0, t0))
+        ob.check(ok, 'bincode|config|%s' % g.split(' (')[0], '%s: %d site(s), writer and reader agree on %s' % (g, len(sites_), sorted(w)),
+                 '%s: the writer serialises with %s but the reader deserialises with %s (integer encoding, byte order): what is read is not what was written'
+                 % (g, sorted(w), sorted(r)), where(bad[0], bad[1].line) if bad[0] else None)
+    ob.require_count(n, 5, 'bincode serialisation sites')
+
+
 from . import initial
 
 from . import casts
@@ -361,6 +415,7 @@ OBLIGATIONS = [
      'is a min over connected players.', o4),
     ('C03.H', 'helpers the rules above rely on', 'the bodies of the helpers named by this property\'s rules compute what the rules assume (prev_pos, add_input, player_input, confirmed_input); see rules/helpers.py', helpers.bundle('prev_pos', 'add_input', 'player_input', 'confirmed_input')),
     ('C03.O14', 'received bytes decode to what was sent (= C14.O4)', 'see C14.O4: the reader of the run-length layer uses the writer\'s table', _c14_o4, {'deps': True}),
+    ('C03.O15', 'wire configuration: reader = writer', 'every bincode site of the crate belongs to one of the two wires (player inputs in InputBytes, whole messages in the UDP socket); within a wire the sites that write (serialize, serialize_into, serialized_size) and the sites that read (deserialize) use the same integer encoding and byte order (top-level bincode functions = fixed-width little-endian; an Options chain is read from its with_* calls): a Confirmed input is the bytes the remote serialised.', o15),
     ('C03.I', 'initial state', 'every constructor gives the fields this property\'s rules interpret (NULL_FRAME = none / nothing yet, 0 = first frame, latches open, typestate start) the value listed in tables/initial_state.json; every field compared with NULL_FRAME anywhere is listed; see rules/initial.py', initial.rule_for('C03')),
     ('C03.C', 'lossy integer casts', 'every sign-changing cast (signed -> unsigned; NULL_FRAME is -1) and every narrowing cast to < 32 bits or from 128 bits in the crate is in range by a dominating guard, by the shape of its operand, or listed with a reason in tables/casts.json; see rules/casts.py', casts.rule),
 ]
